@@ -39,6 +39,16 @@ Definition DIAG_latest_total := Eval vm_compute in
     band_configs.
 Print DIAG_latest_total.
 
+(* (name, repeater, dwell, version key or latest, revision key or latest, DR): a data-rate the
+   region lists since its first release without a size under that combination *)
+Definition DIAG_every_revision_total := Eval vm_compute in
+  flat_map (fun c => let t := c_tab c in
+    flat_map (fun v => flat_map (fun r =>
+      map (fun e => (id_of c, v, r, fst e))
+          (filter (fun e => negb (with_reg c (fun reg => every_rev_cell_check reg t v r (fst e)))) (t_drs t)))
+      (nodup string_dec (latest :: rev_keys t))) (latest :: skeys (t_maxpl t))) band_configs.
+Print DIAG_every_revision_total.
+
 (* (name, dwell, version, revision, DR) of the repeater configuration *)
 Definition DIAG_repeater_le_non_repeater := Eval vm_compute in
   flat_map (fun cr => flat_map (fun cn =>
